@@ -1,5 +1,5 @@
 (* Props/C09.v — pinned statements for property C09 (derived Encode/Decode round-trip). *)
-From MC Require Import Bytes Monad Cbor Decoder Encoder Types DeriveSchema DeriveEnc DeriveDec DeriveKnown DeriveFacts DeriveDecFacts DeriveClosed
+From MC Require Import Bytes Monad Cbor Decoder Encoder Types TypeSem DeriveSchema DeriveEnc DeriveDec DeriveKnown DeriveFacts DeriveDecFacts DeriveClosed
   DeriveReframe DeriveReframeFacts.
 Local Open Scope N_scope.
 
@@ -59,6 +59,28 @@ Theorem C09_roundtrip_reframed_gen : forall (c : cfg) (okty : ty -> Prop) (leaf 
     (Ok (default_skipped Sc d v), mkdst (len bs) rest (len (bs ++ rest))).
 Proof. exact gen_reframe_roundtrip. Qed.
 
+(* ... and with the LEAVES re-framed too.  `reframe_leaves alloc Sc d v bs` (Model/DeriveReframe.v): bs is built like a
+   re-framing (same freedom of the derive layer) but every leaf of built-in type t with value v is either what the encoder writes
+   or ANY well-formed item e with `spec_ty_lenient_at alloc t e = TXOk v (len (ser e))` — the specification of the built-in
+   types of property C04 (Spec/TypeSem.v, open records): any head widths, indefinite / chunked strings, indefinite arrays and
+   maps, surplus record elements … (C04_types_lenient does the reading; with alloc the encoder's own leaf is such an item,
+   C09_leaf_as_written_is_item, from C04_types_roundtrip_consistent).  alloc = c_alloc c is the one feature the specification
+   depends on.  No side condition about break bytes is needed: the first byte of a well-formed item is never 0xff
+   (C04_datatype: datatype() reports spec_type e, which is not Break).  Contains `reframe` (C09_reframe_in_leaves), so this
+   subsumes C09_roundtrip_reframed; the value need not be accepted by the derived *encoder* (no gen_encode hypothesis). *)
+Theorem C09_roundtrip_reframed_leaves : forall Sc, schema_ok Sc = true -> schema_all leaf_ok Sc ->
+  forall c d v bs rest, schema_rt Sc = true -> reframe_leaves (c_alloc c) Sc d v bs -> len (bs ++ rest) < two64 ->
+  gen_decode c Sc d (start (bs ++ rest)) =
+    (Ok (default_skipped Sc d v), mkdst (len bs) rest (len (bs ++ rest))).
+Proof. exact reframe_leaves_roundtrip. Qed.
+
+Theorem C09_reframe_in_leaves : forall alloc Sc d v bs, reframe Sc d v bs -> reframe_leaves alloc Sc d v bs.
+Proof. exact reframe_in_leaves. Qed.
+
+Theorem C09_leaf_as_written_is_item : forall t v cs, leaf_ok t -> encode_ty t v = Some cs -> len (flat cs) < two64 ->
+  exists e, flat cs = ser e /\ wf e = true /\ spec_ty_lenient_at true t e = TXOk v (len (ser e)).
+Proof. exact rf_leaf_enc_is_item. Qed.
+
 (* a nested instance: struct (tag 1, array encoding, a skipped field, indices 0 / 2 / 4 — gaps at 1 and 3) whose field 2
    is an optional, tagged enum (tag 300) in a variant with a map-encoded body (variant tag 5, keys 1 and 3, the latter
    tagged and optional) and whose field 4 is a Vec of that enum (a unit variant and the map variant with its optional
@@ -98,6 +120,24 @@ Proof.
   split; [repeat (constructor || split); reflexivity|].
   split; [vm_compute; reflexivity|]. split; [vm_compute; reflexivity|].
   split; [exists C09_rf_choices; vm_compute; reflexivity|vm_compute; reflexivity].
+Qed.
+
+(* the same value with the unsigned integer leaves re-framed as well (rf_leaf_wide: 5 as 1a 00000005, 1000 as 1b …03e8, 1 as 19 0001),
+   read without feature alloc *)
+Definition C09_rf_choices_leaves : list N := [2; 5; 3; 4; 0; 1; 3; 1; 5; 2; 4; 0; 4;  3; 0; 0; 5;  0; 2; 1; 0; 5; 4; 2].
+Definition C09_rf_bytes_leaves : bytes :=
+  [217; 0; 1; 159; 26; 0; 0; 0; 5; 246; 219; 0; 0; 0; 0; 0; 1; 17; 112; 217; 1; 44; 152; 2; 26; 0; 0; 0; 7; 216; 5; 191; 25; 0; 1;
+   27; 0; 0; 0; 0; 0; 0; 3; 232; 3; 219; 0; 0; 0; 0; 0; 0; 0; 9; 245; 255; 246; 130; 218; 0; 0; 1; 44; 130; 0; 191; 255; 217; 1; 44;
+   153; 0; 2; 24; 7; 197; 191; 27; 0; 0; 0; 0; 0; 0; 0; 1; 25; 0; 1; 255; 255].
+
+Example C09_roundtrip_reframed_leaves_example :
+  reframe_leaves false C09_rf_schema 1 C09_rf_value C09_rf_bytes_leaves /\
+  gen_decode (mkcfg false true true) C09_rf_schema 1 (start (C09_rf_bytes_leaves ++ [7])) =
+    (Ok (VList [VNat 5; VBool false; VSome (VVar 7 (VList [VNat 1000; VSome (VBool true)]));
+                VList [VVar 0 (VList []); VVar 7 (VList [VNat 1; VNone])]]), mkdst 91 [7] 92).
+Proof.
+  split; [|vm_compute; reflexivity].
+  exists rf_leaf_wide, C09_rf_choices_leaves, []. split; [apply rf_leaf_wide_writer|vm_compute; reflexivity].
 Qed.
 
 (* the encoder's own bytes are the re-framing the empty choice list selects (on this instance) *)
@@ -169,6 +209,9 @@ Print Assumptions C09_roundtrip.
 Print Assumptions C09_roundtrip_reframed.
 Print Assumptions C09_roundtrip_reframed_gen.
 Print Assumptions C09_reframe_canonical.
+Print Assumptions C09_roundtrip_reframed_leaves.
+Print Assumptions C09_reframe_in_leaves.
+Print Assumptions C09_leaf_as_written_is_item.
 Print Assumptions C09_errors_wrong_tag.
 Print Assumptions C09_errors_missing_tag.
 Print Assumptions C09_errors_unknown_variant.
